@@ -137,12 +137,28 @@ SHAPES = [
     dict(name='v2_2d_1p_links', ndisk=2, npar=1, split=False, hashsize=16, history='plain', rich=True),
     dict(name='v3_3d_2p_split', ndisk=3, npar=2, split=True, hashsize=16, history='churn', rich=True),
     dict(name='v3_2d_1p_h8', ndisk=2, npar=1, split=False, hashsize=8, history='plain', rich=True),
-    dict(name='v3_2d_2p_split_h8_scrub', ndisk=2, npar=2, split=True, hashsize=8, history='scrub', rich=False),
+    dict(name='v3_2d_2p_split_h8_scrub', ndisk=2, npar=2, split=True, hashsize=8, history='scrub', rich=False, craft='split_uuid'),
     dict(name='v2_3d_2p_partial', ndisk=3, npar=2, split=False, hashsize=16, history='partial', rich=False),
+    # coverage shapes (lighter plan in the quick tier): record kinds / loader branches the shapes above never contain
+    # murmur3 hash ('c' 'u'), maps with uuid, 'C' previous-hash record and rehash info flags; loaded under a configuration in which
+    # d1 has been renamed, so that the loader finds the disk by uuid ("Renaming disk")
+    dict(name='v2_murmur3_uuid_rehash', ndisk=2, npar=2, split=False, hashsize=16, history='rehash', rich=True, light=True,
+         build_opts=['--test-fake-uuid'], run_opts=['--test-fake-uuid'], load_names={1: 'renamed1'}, primary_cmd='diff'),
+    # REP blocks ('p' runs, copy detection), a bad-block info flag (scrub after silent corruption), a configured disk that is empty
+    # (no map record), several info runs; also swept with sync -N / sync -R (the loader rewrites REP / BLK states under these options)
+    dict(name='v2_rep_bad_emptydisk', ndisk=3, npar=2, split=False, hashsize=16, history='repbad', rich=False, light=True, empty_last=True,
+         extra_cmds=[['-N', 'sync'], ['-R', 'sync']]),
+    # hash size 4, split parity with uuids, a file whose name is close to PATH_MAX, zero-size files, links
+    dict(name='v3_h4_split_longname', ndisk=2, npar=1, split=True, hashsize=4, history='plain', rich=True, light=True, longname=True,
+         build_opts=['--test-fake-uuid'], run_opts=['--test-fake-uuid']),
+    # hand-encoded oldest layout: SNAPCNT1, 'm', 'P', 'n' block runs, dir, symlink (c09_fields.legacy_file)
+    dict(name='v1_legacy_m_P_n', ndisk=1, npar=1, split=False, hashsize=16, history='legacy', rich=False, light=True),
+    # the same with the metro hash in the 'c' and in a 'C' record (no option of the tool selects it)
+    dict(name='v1_legacy_metro', ndisk=1, npar=1, split=False, hashsize=16, history='legacy', rich=False, light=True, legacy_hash=(b'm', b'm')),
 ]
 
 
-def conf_text(spec, contents=('./content',), extra=''):
+def conf_text(spec, contents=('./content',), extra='', load=False):
     lines = ['blocksize 1']
     if spec['hashsize'] != 16:
         lines.append('hashsize %d' % spec['hashsize'])
@@ -153,7 +169,8 @@ def conf_text(spec, contents=('./content',), extra=''):
     for c in contents:
         lines.append('content %s' % c)
     for d in range(spec['ndisk']):
-        lines.append('data d%d %s/d%d/' % (d + 1, spec.get('dataroot', '.'), d + 1))
+        nm = (spec.get('load_names') or {}).get(d + 1) if load else None
+        lines.append('data %s %s/d%d/' % (nm or 'd%d' % (d + 1), spec.get('dataroot', '.'), d + 1))
     return '\n'.join(lines) + '\n' + extra
 
 
@@ -172,6 +189,12 @@ def populate(root, spec, rng):
     for d in range(spec['ndisk']):
         dd = os.path.join(root, 'd%d' % (d + 1))
         os.makedirs(dd, exist_ok=True)
+        if spec.get('empty_last') and d == spec['ndisk'] - 1:
+            continue
+        if spec.get('longname') and d == 1:
+            # 3960 name bytes below the disk root: with "./d2/" in front still under PATH_MAX = 4096
+            sub = '/'.join(['L%02d' % i + 'x' * 215 for i in range(18)]) + '/end'
+            _wfile(os.path.join(dd, sub), bytes(rng.getrandbits(8) for _ in range(10)), t0 + 77)
         for j, sz in enumerate(sizes[d % 3]):
             k += 1
             name = ['a', 'sub/b', 'c\xe9 x'][j % 3] if spec['rich'] else 'f%d' % j
@@ -197,14 +220,22 @@ def make_array(tool, root, spec, rng, contents=('./content',)):
         f.write(conf_text(spec, contents))
     env = tool_env()
 
-    def must(args):
-        rc, out = run_tool(tool, ['-c', 'conf'] + args, root, env)
-        if rc != 0:
+    bo = list(spec.get('build_opts') or [])
+
+    def must(args, ok=(0,)):
+        rc, out = run_tool(tool, ['-c', 'conf'] + bo + args, root, env)
+        if rc not in ok:
             raise ArrayError('%s: %r failed rc=%r: %s' % (spec['name'], args, rc, out[-400:].decode(errors='replace')))
         return out
-    must(['sync'])
     h = spec['history']
     t1 = 1600000500 * 10**9
+    if h == 'legacy':
+        import c09_fields
+        b = c09_fields.legacy_file(*spec.get('legacy_hash', (b'u', None)))
+        with open(os.path.join(root, 'content'), 'wb') as f:
+            f.write(b)
+        return b
+    must((['--test-force-murmur3'] if h == 'rehash' else []) + ['sync'])
     if h == 'churn':
         # delete, shrink, add; then a partial sync keeps CHG / DELETED blocks in the saved state
         d1 = os.path.join(root, 'd1')
@@ -216,12 +247,38 @@ def make_array(tool, root, spec, rng, contents=('./content',)):
         _wfile(os.path.join(root, 'd1', 'f0'), bytes(rng.getrandbits(8) for _ in range(2100)), t1)
         os.unlink(os.path.join(root, 'd2', 'f1'))
         must(['sync', '-B', '1'])
+    elif h == 'rehash':
+        # schedule the rehash (previous hash murmur3 kept in a 'C' record, rehash flag in every info), migrate half of it, then
+        # leave a change unsynced
+        must(['rehash'])
+        must(['scrub', '-p', '50'])
+        _wfile(os.path.join(root, 'd2', 'late'), bytes(rng.getrandbits(8) for _ in range(1200)), t1)
+        must(['sync', '-B', '1'])
+    elif h == 'repbad':
+        import shutil as _sh
+        os.makedirs(os.path.join(root, 'd2', 'cp'))
+        _sh.copy2(os.path.join(root, 'd1', 'f0'), os.path.join(root, 'd2', 'cp', 'f0'))      # same name, size, time: copy detection -> REP
+        p = os.path.join(root, 'd2', 'f0')
+        st = os.stat(p)
+        b = bytearray(open(p, 'rb').read())
+        b[0] ^= 1                                                                        # silent corruption: scrub marks the block bad
+        open(p, 'wb').write(b)
+        os.utime(p, ns=(st.st_atime_ns, st.st_mtime_ns))
+        must(['scrub', '-p', 'full'], ok=(0, 1))
+        must(['sync', '-B', '1'])
     elif h == 'scrub':
         must(['scrub', '-p', 'full'])
         _wfile(os.path.join(root, 'd2', 'late'), bytes(rng.getrandbits(8) for _ in range(30)), t1)
         must(['sync'])
-    with open(os.path.join(root, contents[0].lstrip('./') if contents[0].startswith('./') else contents[0]), 'rb') as f:
-        return f.read()
+    cpath = os.path.join(root, contents[0].lstrip('./') if contents[0].startswith('./') else contents[0])
+    with open(cpath, 'rb') as f:
+        b = f.read()
+    if spec.get('craft') == 'split_uuid':
+        import c09_fields
+        b = c09_fields.add_split_uuids(b)
+        with open(cpath, 'wb') as f:
+            f.write(b)
+    return b
 
 
 # ---------------------------------------------------------------------------------------
@@ -322,9 +379,9 @@ class Sweep:
             wd = os.path.join(root, 'w%d' % k)
             os.makedirs(os.path.join(wd, 'c2'), exist_ok=True)
             with open(os.path.join(wd, 'conf'), 'w') as f:
-                f.write(conf_text(spec, ('./w%d/content' % k,)))
+                f.write(conf_text(spec, ('./w%d/content' % k,), load=True))
             with open(os.path.join(wd, 'conf2'), 'w') as f:
-                f.write(conf_text(spec, ('./w%d/content' % k, './w%d/c2/content' % k)))
+                f.write(conf_text(spec, ('./w%d/content' % k, './w%d/c2/content' % k), load=True))
 
     def run(self, binary, base, mutants, cmd, sanitize=False, mode='conf', timeout=60, want=False):
         """cmd: list like ['status'] ; mode 'conf' | 'noconf' (snapraid -C file).
